@@ -367,5 +367,23 @@ func VPH_finish() {
 	vp_AssumeASCII(r)
 	walk, _ := g.Categorize(r)
 	vp_Assert(walk == defaultAll, "no selection option: all references iff no ROOT was given")
+	walk, syms := g.Categorize(r)
+	if !walk {
+		// C07: however the selection came about (here: ROOT arguments and no
+		// reference option), an untraversed reference is tallied under Ignored,
+		// and Ignored is one of the groups that get a row
+		vp_Assert(len(syms) == 1 && syms[0] == "ignored", "an untraversed reference is tallied only under Ignored")
+		listed := false
+		for _, rg := range g.Groups() {
+			if rg.Symbol == "ignored" {
+				listed = true
+			}
+		}
+		vp_Assert(listed, "Ignored is among the groups that are reported")
+	} else {
+		for _, sym := range syms {
+			vp_Assert(sym != "ignored", "a traversed reference is not Ignored")
+		}
+	}
 	vp_Reach("end")
 }
